@@ -160,7 +160,7 @@ def probe_instants(data, tier, rng, max_trans=40):
     times = tz.times
     pick = times
     if tier == "quick" and len(times) > max_trans:
-        pick = times[:5] + times[-8:] + rng.sample(times[5:-8], max_trans - 13)
+        pick = times[:5] + times[-8:] + rng.sample(times[5:-8], max(0, min(len(times) - 13, max_trans - 13)))
     for T in pick:
         for d in DELTAS:
             out.append(clamp(T + d))
@@ -361,3 +361,289 @@ def gen_c11(tier, rng):
             cases.append("pt %s %d" % (zid, t))
         cases.append("chain %s" % zid)
     return cases, zones
+
+
+# ---------------------------------------------------------------------------
+# C10: totality and saturation at the ends of the range
+
+def named(name_bytes):
+    return "N:" + name_bytes.hex()
+
+
+def fixed_name(off):
+    a = abs(off)
+    return ("Fixed/UTC%s%02d:%02d:%02d" % ("-" if off < 0 else "+", a // 3600, a // 60 % 60, a % 60)).encode()
+
+
+def edge_instants():
+    out = []
+    for base, sg in ((I64_MIN, 1), (I64_MAX, -1)):
+        for h in range(0, 49):
+            out.append(base + sg * h * 3600)
+        for s in range(0, 121):
+            out.append(base + sg * s)
+    for c in (BIG_BANG, -BIG_BANG, -(1 << 31), (1 << 31) - 1, 0):
+        for d in (-2, -1, 0, 1, 2):
+            out.append(c + d)
+    kmax = I64_MAX // P400
+    for k in (kmax, kmax - 1, -kmax, -kmax + 1):
+        for d in (-1, 0, 1):
+            out.append(clamp(k * P400 + d))
+    return sorted(set(out))
+
+
+def gen_c10(tier, rng):
+    zones = zones_for(tier, rng)
+    ids = [z[0] for z in zones]
+    for off in (86400, -86400, 86399, -86399, 3600, -3600, 1, -1, 43200, -43200, 45296):
+        ids.append(named(fixed_name(off)))
+    ids.append(named(b"UTC"))
+    inst = edge_instants()
+    cases = []
+    for zid in ids:
+        offs = [0, 86400, -86400, 3600, -3600, 50400, -43200, 1, -1]
+        for t in inst:
+            cases.append("bt %s %d" % (zid, t))
+            cases.append("nt %s %d" % (zid, t))
+            cases.append("pt %s %d" % (zid, t))
+        civ = set()
+        for t in inst:
+            if abs(t) > (1 << 62):
+                for o in offs:
+                    cs = civil_of_seconds(t + o)
+                    civ.add(cs)
+        civ |= {(I64_MAX, 12, 31, 23, 59, 59), (I64_MIN, 1, 1, 0, 0, 0), (I64_MAX, 1, 1, 0, 0, 0), (I64_MIN, 12, 31, 23, 59, 59)}
+        for cs in sorted(civ):
+            if I64_MIN <= cs[0] <= I64_MAX:
+                cases.append("mt %s %s" % (zid, fmt_cs(cs)))
+                cases.append("cv %s %s" % (zid, fmt_cs(cs)))
+    return cases, zones
+
+
+# ---------------------------------------------------------------------------
+# C12: arbitrary bytes
+
+FOOTERS = [b"EST5EDT,M3.2.0,M11.1.0", b"STD5", b"", b"STD5DST,M3.2.0", b"STD5DST/1", b"EST5EDT,M3,M11.1.0", b":EST5",
+           b"STD-1DST0,J365/25:30,J1/0", b"STD5DST,J1/0,J1/0", b"STD5DST4,0/0,J365/25", b"<+03>-3<+04>,J1/-167,J365/167",
+           b"STD5DST,M3.2.0/167,M3.2.0/-167", b"STD24DST-24,0,365", b"AAA0BBB,0/0,0/0", b"STD5\0junk", b"\xff\xfe\xfd5",
+           b"STD5DST,M12.5.6/167,M1.1.0/-167", b"X" * 300 + b"5", b"STD5DST,366,1", b"STD5DST,J0,J1"]
+
+
+def header_lengths(data):
+    """(ok, total declared data length of the block the loader will allocate)"""
+    def cnts(off):
+        if len(data) < off + 44:
+            return None
+        return struct.unpack(">6l", data[off + 20:off + 44])
+    c = cnts(0)
+    if c is None:
+        return 0
+    def dl(c, tl):
+        isut, isstd, leap, timecnt, typecnt, charcnt = c
+        if min(c) < 0:
+            return 0
+        return (tl + 1) * timecnt + 6 * typecnt + charcnt + (tl + 4) * leap + isstd + isut
+    if data[4:5] == b"\0":
+        return dl(c, 4)
+    skip = dl(c, 4)
+    c2 = cnts(44 + skip) if skip < len(data) else None
+    if c2 is None:
+        return 0
+    return dl(c2, 8)
+
+
+def mutate(base, rng):
+    b = bytearray(base)
+    kind = rng.randrange(12)
+    try:
+        tz = tzif.Tz(base)
+        v2 = base[4:5] != b"\0"
+        # offset of the data header (second one for v2+)
+        hdr2 = 0
+        if v2:
+            (isut, isstd, leap, timecnt, typecnt, charcnt) = struct.unpack(">6l", base[20:44])
+            hdr2 = 44 + 5 * timecnt + 6 * typecnt + charcnt + 8 * leap + isstd + isut
+        (isut, isstd, leap, timecnt, typecnt, charcnt) = struct.unpack(">6l", base[hdr2 + 20:hdr2 + 44])
+        tl = 8 if v2 else 4
+        d0 = hdr2 + 44
+    except Exception:
+        kind = 0
+    if kind == 0:      # bit flips anywhere
+        for _ in range(rng.randint(1, 4)):
+            i = rng.randrange(len(b))
+            b[i] ^= 1 << rng.randrange(8)
+    elif kind == 1:    # truncation at a section boundary +-1
+        cuts = [44, hdr2, hdr2 + 44, d0 + tl * timecnt, d0 + (tl + 1) * timecnt, d0 + (tl + 1) * timecnt + 6 * typecnt,
+                d0 + (tl + 1) * timecnt + 6 * typecnt + charcnt, len(b) - 1, len(b) - 2, 4, 5, 20]
+        c = max(0, min(len(b), rng.choice(cuts) + rng.choice([-1, 0, 1])))
+        b = b[:c]
+    elif kind == 2:    # header count edit (data header: moderate values only)
+        which = rng.randrange(6)
+        cur = [isut, isstd, leap, timecnt, typecnt, charcnt][which]
+        val = rng.choice([0, 1, cur + 1, max(0, cur - 1), 255, 256, 257, 1000, -1, -(1 << 31)])
+        b[hdr2 + 20 + 4 * which: hdr2 + 24 + 4 * which] = struct.pack(">l", val)
+    elif kind == 3 and v2:  # first-header count edit: any value (only used for Skip)
+        which = rng.randrange(6)
+        val = rng.choice([0, 1, 255, 256, (1 << 31) - 1, -(1 << 31), -1, 12345])
+        b[20 + 4 * which: 24 + 4 * which] = struct.pack(">l", val)
+    elif kind == 4 and timecnt:   # type index at/over the bound
+        i = d0 + tl * timecnt + rng.randrange(timecnt)
+        b[i] = rng.choice([typecnt, typecnt - 1, 255, 0, typecnt + 1]) & 255
+    elif kind == 5 and typecnt:   # abbreviation index / isdst / utoff edits
+        j = d0 + (tl + 1) * timecnt + 6 * rng.randrange(typecnt)
+        w = rng.randrange(3)
+        if w == 0:
+            b[j + 5] = rng.choice([charcnt, charcnt - 1, 255, 0, charcnt + 1]) & 255
+        elif w == 1:
+            b[j + 4] = rng.choice([0, 1, 2, 255])
+        else:
+            b[j:j + 4] = struct.pack(">l", rng.choice([86399, 86400, -86399, -86400, 0, 1 << 30, -(1 << 31), 90000, -90000]))
+    elif kind == 6 and timecnt:   # 8-byte time edits
+        k = rng.randrange(timecnt)
+        val = rng.choice([I64_MIN, I64_MAX, I64_MIN + 1, I64_MAX - 100000, BIG_BANG, BIG_BANG - 1, BIG_BANG + 1, -BIG_BANG, 0, -1,
+                          (1 << 62), -(1 << 62), (1 << 31) - 1])
+        if tl == 8:
+            b[d0 + 8 * k: d0 + 8 * k + 8] = struct.pack(">q", val)
+            if rng.random() < 0.5:   # keep sorted: set the last one high / the first one low
+                k2 = timecnt - 1 if val > 0 else 0
+                b = bytearray(base)
+                b[d0 + 8 * k2: d0 + 8 * k2 + 8] = struct.pack(">q", val)
+        else:
+            b[d0 + 4 * k: d0 + 4 * k + 4] = struct.pack(">l", max(-(1 << 31), min((1 << 31) - 1, val)))
+    elif kind == 7 and v2:   # footer replacement
+        f = rng.choice(FOOTERS)
+        i = base.rfind(b"\n", 0, len(base) - 1)
+        b = bytearray(base[:i + 1] + f + b"\n")
+    elif kind == 8:    # splice two halves
+        c = rng.randrange(len(b))
+        b = b[:c] + b[rng.randrange(len(b)):]
+    elif kind == 9:    # magic / version
+        b[rng.randrange(0, 6)] = rng.choice([0, ord("T"), ord("2"), ord("3"), ord("9"), 255])
+    elif kind == 10 and v2:  # drop the trailing newline / footer newline
+        b = b[:-1] if rng.random() < 0.5 else b + b"junk"
+    else:
+        for _ in range(rng.randint(1, 10)):
+            b[rng.randrange(len(b))] = rng.randrange(256)
+    return bytes(b)
+
+
+def handcrafted_c12():
+    """the families found while designing: F4, F5, F8"""
+    abbr = b"LMT\0STD\0DST\0"
+    ty = [(-17762, 0, 0), (-18000, 0, 4), (-14400, 1, 8)]
+    out = []
+    out.append(("hc_f4", tzif.write_tzif(b"2", [0, I64_MAX - 100000], [1, 2], ty, abbr, b"STD5DST,M3.2.0,M11.1.0", v1_block=False)))
+    out.append(("hc_f5", tzif.write_tzif(b"2", [I64_MIN, I64_MAX], [1, 2], ty, abbr, b"", v1_block=False)))
+    out.append(("hc_f5b", tzif.write_tzif(b"2", [BIG_BANG + 1, I64_MAX], [1, 2], ty, abbr, b"", v1_block=False)))
+    out.append(("hc_f8", tzif.write_tzif(b"3", [100000000], [1], [(0, 0, 0), (3600, 0, 4), (0, 1, 8)], abbr, b"STD-1DST0,J365/25:30,J1/0", v1_block=False)))
+    out.append(("hc_tie", tzif.write_tzif(b"2", [100000000], [1], ty, abbr, b"STD5DST4,J1/0,J1/0", v1_block=False)))
+    out.append(("hc_empty", b""))
+    out.append(("hc_hdr_only", b"TZif2" + b"\0" * 15 + struct.pack(">6l", 0, 0, 0, 0, 1, 1)))
+    return out
+
+
+def panel(zid, rng):
+    ts = [I64_MIN, I64_MAX, 0, 1 << 62, -(1 << 62), BIG_BANG, (1 << 31) - 1, 100000000, 1700000000, 4102444800, 64060588800, -2717650800]
+    cs = [(1970, 1, 1, 0, 0, 0), (2030, 3, 10, 2, 30, 0), (2030, 11, 3, 1, 30, 0), (I64_MAX, 12, 31, 23, 59, 59), (I64_MIN, 1, 1, 0, 0, 0),
+          (4000, 6, 1, 12, 0, 0), (1883, 11, 18, 12, 0, 0), (292277026596, 12, 4, 15, 30, 7)]
+    out = ["zload %s" % zid]
+    for t in ts:
+        out.append("bt %s %d" % (zid, t))
+    for t in ts[:7]:
+        out.append("nt %s %d" % (zid, t))
+        out.append("pt %s %d" % (zid, t))
+    for c in cs:
+        out.append("mt %s %s" % (zid, fmt_cs(c)))
+    out.append("reload %s r" % zid)
+    return out
+
+
+def gen_c12(tier, rng):
+    bases = real_zones("quick", rng) + synthetic_zones(rng, tier)
+    n = 1200 if tier == "quick" else 60000
+    zones = list(handcrafted_c12())
+    k = 0
+    while len(zones) < n:
+        zid, data = rng.choice(bases)
+        m = mutate(data, rng)
+        if rng.random() < 0.15:
+            m = mutate(m, rng)
+        if len(m) > 65536 or header_lengths(m) > 65536:
+            continue
+        k += 1
+        zones.append(("m%05d" % k, m))
+    # purely random byte strings and tiny files
+    for j in range(60 if tier == "quick" else 2000):
+        L = rng.choice([0, 1, 4, 5, 43, 44, 45, 88, 100, 200])
+        zones.append(("r%04d" % j, bytes([rng.randrange(256) for _ in range(L)]) if rng.random() < 0.5 else (b"TZif2" + bytes(rng.randrange(256) for _ in range(L)))))
+    cases = []
+    for zid, _ in zones:
+        cases += panel(zid, rng)
+    return cases, zones
+
+
+# ---------------------------------------------------------------------------
+# C14: every reachable hidden state
+
+def gen_c14(tier, rng):
+    zones = zones_for(tier, rng)
+    if tier == "quick":
+        zones = zones[:40] + zones[-12:]
+    cases = []
+    key = 0
+    for zid, data in zones:
+        try:
+            tz = tzif.Tz(data)
+            times = tz.times
+        except Exception:
+            times = []
+        inst, offs, rule = probe_instants(data, "quick", rng, max_trans=12)
+        inst = sorted(set(inst))
+        pan_t = rng.sample(inst, min(len(inst), 14))
+        civ = civil_probes(pan_t, offs, tier, rng)[:14]
+        prim = times if tier != "quick" else (times[:3] + times[-6:] + rng.sample(times, min(len(times), 10)))
+        for T in prim:
+            # one priming query per direction leaves hint = index of T (+1)
+            cases.append("hbt %s %d" % (zid, T))
+            cs = civil_of_seconds(T + (offs[0] if offs else 0))
+            cases.append("hmt %s %s" % (zid, fmt_cs(cs)))
+            for t in pan_t[:6]:
+                cases.append("hbt %s %d" % (zid, t))
+            for c in civ[:6]:
+                cases.append("hmt %s %s" % (zid, fmt_cs(c)))
+        # random walk
+        for _ in range(200 if tier == "quick" else 3000):
+            if rng.random() < 0.5:
+                cases.append("hbt %s %d" % (zid, rng.choice(inst)))
+            else:
+                cases.append("hmt %s %s" % (zid, fmt_cs(rng.choice(civ) if civ else (1970, 1, 1, 0, 0, 0))))
+        # pristine copy under a fresh key, same probes
+        key += 1
+        for t in pan_t:
+            cases.append("hbt %s %d" % (zid, t))
+            cases.append("fbt %s k%d %d" % (zid, key, t))
+        for c in civ:
+            cases.append("hmt %s %s" % (zid, fmt_cs(c)))
+            cases.append("fmt %s k%d %s" % (zid, key, fmt_cs(c)))
+        cases.append("reload %s q%d" % (zid, key))
+    # failed names stay failed
+    zones = zones + [("bad_magic", b"XZif2" + b"\0" * 200), ("bad_empty", b"")]
+    for j in range(3):
+        cases.append("reload bad_magic b%d" % j)
+        cases.append("reload bad_empty e%d" % j)
+        cases.append("reload nosuchzone n%d" % j)
+    return cases, zones
+
+
+def post_c14(cases, impl):
+    """an answer from the zone with history must equal the answer of the
+    pristine copy (fbt/fmt directly follows the hbt/hmt with the same probe)"""
+    bad = []
+    for i in range(1, len(cases)):
+        a = cases[i].split()
+        if a[0] in ("fbt", "fmt"):
+            p = cases[i - 1].split()
+            if p[0] in ("hbt", "hmt") and p[1] == a[1] and p[2:] == a[3:]:
+                if impl[i] != impl[i - 1]:
+                    bad.append((i - 1, "answer depends on call history: with history %r, pristine copy %r" % (impl[i - 1], impl[i])))
+    return bad
